@@ -12,10 +12,16 @@ import (
 )
 
 // leaf keys of the pool in dependency order: a value may only mention later keys (acyclic)
-var c19Pool = []string{"l[0].u", "a", "b", "c.d", "e", "f.g"}
+var c19Pool = []string{"l[0].u", "a", "b", "c.d", "e", "f.g", "m[0][0]", "sel"}
 
 func c19Value(r *rand.Rand, idx int) any {
+	if c19Pool[idx] == "sel" { // names the second segment of c.d: ${c.${sel}} is a mention of c.d by a computed name
+		return "d"
+	}
 	later := c19Pool[idx+1:]
+	if idx <= 1 && r.Intn(6) == 0 {
+		return []string{"${c.${sel}}", "x${c.${sel}}y${e}", "${f.${nope:g}}"}[r.Intn(3)]
+	}
 	pick := func() string {
 		if len(later) == 0 || r.Intn(5) == 0 {
 			return []string{"zz", "nope.x"}[r.Intn(2)]
@@ -183,6 +189,13 @@ func c19Dep(r *rand.Rand) Case {
 				b.PlaceholderMatcher(func(string) dom.SearchValueFunc { return func(any) bool { return false } })
 				b.OnPlaceholderEncountered(func(string, dom.Coordinates) { panic("callback of a later configuration") })
 				_ = b.Build()
+			}
+			if i%4 == 3 && len(rd) >= 2 {
+				// the reference documents are the caller's slice (here with spare capacity): a report over a
+				// prefix of it, then the report over all of it
+				pool := append(make([]dom.OverlayDocument, 0, len(rd)+4), rd...)
+				_ = resolver.Resolve(src.build(), pool[:1]...)
+				rd = pool
 			}
 			rep := resolver.Resolve(src.build(), rd...)
 			nm := normMap(rep.Map)
